@@ -198,14 +198,15 @@ Proof.
   pose proof (Z.mul_div_le s (c_b c) Hb) as Hd1. pose proof (Z.mul_succ_div_gt s (c_b c) Hb) as Hd2.
   revert Hq Hm Hd1 Hd2. generalize (s / c_b c) as d. intros d Hq Hm Hd1 Hd2.
   assert (c_b c * (i * c_k c) <= c_b c * d) by (apply Z.mul_le_mono_nonneg_l; lia).
-  split; [|split; [reflexivity|split; [|exact Hm]]]; lia.
+  split; [lia|split; [lia|split; [lia|]]].
+  match goal with |- ?x mod _ = 0 => replace x with (c_b c * d) by lia end. exact Hm.
 Qed.
 
 Lemma cellid_cell_of c cn r : valid_cfg c = true -> 0 <= site r -> cellid c cn r = cell_of c cn r.
 Proof.
   intros Hv H0. apply valid_cfg_iff in Hv. destruct Hv as (Hb & _).
   unfold cellid, cell_of, bin_of, g_bin_start, g_bin_end, g_bin_i. cbn [fst snd].
-  rewrite Z.quot_div_nonneg by lia. reflexivity.
+  rewrite Z.quot_div_nonneg by lia. repeat (f_equal; try lia).
 Qed.
 
 Lemma regular_passes c len r : regular c len r = true -> passes c r = true ->
